@@ -2,6 +2,7 @@ import MosnVerif.Drive.DispatchCtx
 import MosnVerif.Drive.BufReuse
 import MosnVerif.Drive.HpackOrder
 import MosnVerif.Drive.StreamGen
+import MosnVerif.Drive.ProxyGenDrive
 import MosnVerif.Drive.Util
 import MosnVerif.Model.StreamTableSpec
 import MosnVerif.Model.CorrelateSpec
@@ -253,6 +254,7 @@ def run (caseToks impl : List String) : String :=
   | ["h1b", _nconn, plan] => MosnVerif.Drive.BufReuse.run plan impl
   | ["h2w", side, _mode, _w, resps] => MosnVerif.Drive.HpackOrder.run side resps impl
   | ["sgen", plan] => MosnVerif.Drive.StreamGen.run plan impl
+  | ["pgen", timer, aEnd, rel] => MosnVerif.Drive.ProxyGenDrive.run timer aEnd rel impl
   | _ => "E E unknown-kind"
 
 end MosnVerif.Drive.C02
